@@ -168,7 +168,7 @@ def render_layer(quick_s=15, thorough_s=300):
         except Exception:
             return {"what": "C15 rendering layer", "error": (err or out)[-400:], "violations": []}
         r = {"what": "C15 rendering layer: random abstract machines (2-4 states in shuffled declaration order, 1-3 events, guards, transitions shared "
-                     "by two events, an optional any-group) written as class-body source in 19 declaration styles, executed on the real library "
+                     "by two events, an optional any-group) written as class-body source in 20 declaration styles, executed on the real library "
                      "and compared on states, events, allowed events per step, outcomes and convention-callback traces over random event "
                      "sequences and guard verdicts (bounded, not a proof)",
              "bound": f"time budget {limit}s (at least 150 machines), seed {seed}; 5 sequences of <= 6 events per machine; styles: " + ", ".join(res.get("styles", [])),
